@@ -21,14 +21,19 @@ MANIFEST = {
             "kernel IS the linear recursion z' = Fz + Gb (F = shift·[A;I]); block stationarity is proved for covariances that "
             "depend on the displacement only; given the two C04 identities the theoretical covariance is a fixed point of "
             "P -> FPF' + GG'; under a contraction witness ||F^k||_F < 1 it is the unique one, reached geometrically from any "
-            "start, and the start is forgotten; conversely a real eigenvalue of modulus >= 1 excludes convergence.  The model "
+            "start, and the start is forgotten; conversely a real eigenvalue of modulus >= 1 excludes convergence.  All of this "
+            "is about the recursion STATE (the first n_columns rows); for the older rows of the exposed screen the theoretical "
+            "covariance is proved NOT to be stationary in general (smallest case: one pixel wide, three rows).  The model "
             "is tied to the code on every run by replaying random histories on real objects with an injected counting "
             "generator (labels: bit-exact; Float: tolerance); a direct oracle on the real code supplies failing inputs and "
             "records the contraction witness per configuration.",
     "note": "Trusted: Lean kernel + propext/Classical.choice/Quot.sound; the hand-written model (tied by correspondence only); "
             "NumPy slicing/append semantics; the Cholesky/SVD kernels behind A and B (C04's contracts, re-checked numerically "
             "here through the Lyapunov residual).  Not proved: IEEE finiteness (no overflow), the numeric contraction witness "
-            "(computed per configuration), positive-definiteness of the von Karman kernel.",
+            "(a hypothesis of every stability theorem; computed per configuration), positive-definiteness of the von Karman "
+            "kernel.  Scope: stability / stationary covariance are established for the recursion state only; the covariance of "
+            "the whole exposed N x N screen deviates from theory (n_columns=1: structure function 0.65..0.26 of theory at row "
+            "lags 2..15 for N=16, L0/pixel=100; default n_columns=2: within about 3-5 %) — measured and recorded per run.",
     "technique": "Lean 4 proof by induction over operation histories + matrix algebra over R; differential replay of histories "
                  "(model vs real object) + direct oracle search on the real code",
 }
@@ -39,13 +44,15 @@ REQUIRED = ["wf_run", "shape_inv", "shape_inv_outputs", "shape_inv_vk", "shape_i
             "findAllowedSize_fixed", "findAllowedSize_table", "joint_step", "vk_is_stationary", "vkShift_mulVec",
             "unique_and_convergent", "vk_stable", "stencil_step", "contraction_needed", "vkKernel_rowOK", "vk_state_recursion",
             "start_forgotten", "vk_stable_concrete", "friedKernel_rowOK", "unstable_diverges", "vk_block_stationary",
-            "covZZ_symm", "covZX_transpose", "vk_stable_from_cov"]
+            "covZZ_symm", "covZX_transpose", "vk_stable_from_cov",
+            "exposed_fixed_point", "exposed_model_cov_not_fixed", "exposed_stationary_limit"]
 
 VARIANTS = ("vk", "fried")
 # realistic parameter domain of the quantitative (stability / stationary-covariance) oracle; see `rule`
 RATIO_MAX = 2000.0
-RES_TOL = 3e-5      # |F S F' + G G' - S|max / S(0); float32 covariance pipeline leaves <= 3e-7 on this domain
-DEV_TOL = 2e-2      # |P* - S|max / S(0); worst-case bound amp * 3e-7 <= 6e-3 on this domain, observed <= 5e-6
+# calibrated on the repaired tree (phase_covariance in binary64, fix 4518b2c): 12 seeds x 60 configurations of gen_cfg(vk)
+RES_TOL = 5e-9      # |F S F' + G G' - S|max / S(0); observed <= 4.8e-11 (a float32 covariance pipeline leaves ~3e-7)
+DEV_TOL = 1e-4      # |P* - S|max / S(0) on the recursion STATE; observed <= 7.1e-7 (= residual amplified by 1/(1-rho), rho <= 0.99995)
 ROW_RTOL = 1e-9
 
 
@@ -108,7 +115,10 @@ def gen_cfg(rng, maxn, variant=None, req=None, extreme=False):
         req = rng.choice([n for n in pool if n <= maxn] + [rng.randint(1, maxn)])
     px = logu(rng, 0.02, 0.5)
     r0 = logu(rng, 0.05, 0.5)
-    if extreme:
+    if extreme == "huge":
+        px = logu(rng, 0.01, 0.1)
+        L0 = px * logu(rng, 1e5, 1e7)
+    elif extreme:
         L0 = px * logu(rng, 2e4, 2e5)
     else:
         L0 = logu(rng, max(1.0, 4 * px), min(100.0, RATIO_MAX * px))
@@ -162,8 +172,10 @@ def oracle_history(chk, cfg, ops, record=True):
                                                                               ops[i] if 0 <= i < len(ops) else "-", ops[:i + 1]),
                      {"cfg": cfg, "ops": ops[:i + 1], "kind": kind})
 
+    stream_broke = []
     consts = {k: (v.copy() if isinstance(v, numpy.ndarray) else copy.deepcopy(v)) for k, v in vars(ps).items()
               if k not in ("_scrn", "_R", "random_seed")}
+    public = ("A_mat", "B_mat", "stencil_coords", "nx_size", "stencil_length", "requested_nx_size", "pixel_scale", "r0", "L0")
     global_state = numpy.random.get_state()
     ref = clone_gen(g)
     prev = numpy.array(ps.scrn, copy=True)
@@ -216,10 +228,14 @@ def oracle_history(chk, cfg, ops, record=True):
                 if not (err <= ROW_RTOL * scale + 1e-300).all():
                     bad("row", "generated row differs from A·Z + B·b of the previous array and the next %d normals of the "
                         "stream by %.3g (scale %.3g)" % (nx, float(err.max()), float(scale.max())), i)
-            if g.log[nlog:] != [("normal", nx)]:
-                bad("rng", "add_row drew %r from the generator, expected one block of %d normals" % (g.log[nlog:], nx), i)
-            elif g.bit_generator.state != ref.bit_generator.state:
-                bad("rng", "generator position after add_row is not %d normals further" % nx, i)
+            # HOW the innovation is drawn (the model: one block of nx normals per add_row) is a correspondence matter; the
+            # property-level consequence — the row is A·Z + B·b with b from the injected stream — is the "row" check above
+            if (g.log[nlog:] != [("normal", nx)] or g.bit_generator.state != ref.bit_generator.state) and not stream_broke:
+                stream_broke.append(1)
+                chk.broke("correspondence", "add_row drew %r from the injected generator / left it at another position than one "
+                          "block of %d normals further (model: pos_inv, add_uses_fresh_block)  %s op %d"
+                          % (g.log[nlog:][:4], nx, json.dumps(cfg, sort_keys=True), i))
+                ref.bit_generator.state = copy.deepcopy(g.bit_generator.state)
             prev = outc
         else:
             if op == "s":
@@ -234,13 +250,21 @@ def oracle_history(chk, cfg, ops, record=True):
                 bad("read-rng", "reading (%s) advanced the random stream (%r)" % (op, g.log[nlog:]), i)
             if not bits_equal(numpy.array(ps.scrn), prev):
                 bad("read", "exposed screen changed by a read", i)
+    # "nothing else changes": the documented matrices / parameters of the object are observable, so a change is a failing
+    # input; which PRIVATE attributes exist is an implementation matter (the model's state is (_scrn, stream position))
+    other = []
     for k, v in consts.items():
         w = getattr(ps, k, None)
         same = bits_equal(v, w) if isinstance(v, numpy.ndarray) else (type(v) is type(w) and v == w)
         if not same:
-            bad("other-state", "attribute %s changed during the history" % k, len(ops) - 1)
-    if set(vars(ps)) - set(consts) - {"_scrn", "_R", "random_seed"}:
-        bad("other-state", "new attributes appeared: %r" % sorted(set(vars(ps)) - set(consts)), len(ops) - 1)
+            if k in public:
+                bad("other-state", "attribute %s changed during the history" % k, len(ops) - 1)
+            else:
+                other.append(k)
+    other += sorted(set(vars(ps)) - set(consts) - {"_scrn", "_R", "random_seed"})
+    if other:
+        chk.broke("correspondence", "the object carries state the model does not have: attributes %r changed / appeared during the "
+                  "history  %s" % (other[:6], json.dumps(cfg, sort_keys=True)))
     g2 = numpy.random.get_state()
     if not (g2[0] == global_state[0] and bits_equal(g2[1], global_state[1]) and g2[2:] == global_state[2:]):
         bad("rng-global", "the history moved numpy's GLOBAL random state", len(ops) - 1)
@@ -412,6 +436,126 @@ def oracle_long(chk, cfg, nrows):
             chk.fail("bounded:vk", "max |phase| = %.3g after %d add_row, more than 12 standard deviations (%.3g) of the von "
                      "Kármán field  %s" % (mx, nrows, math.sqrt(s0), json.dumps(cfg, sort_keys=True)),
                      {"cfg": cfg, "ops": "a" * nrows, "kind": "bounded"})
+
+
+# --------------------------------------------------------------------------------------------- oracle: further histories
+def oracle_watched_twin(chk, cfg, n_add):
+    """two objects of one configuration and seed: on one, every add_row is followed by repr / str / print / .scrn; the twin only
+    adds rows and is never looked at in between.  Reading never alters the screen or the stream ⇒ both show bit-identical
+    screens after every add_row (catches a read that writes through a view of the working array)."""
+    import io
+    try:
+        ps, g = construct(cfg)
+        tw, gt = construct(cfg)
+    except Exception as ex:
+        chk.count("oracle:construct-raises:" + type(ex).__name__)
+        return
+    vk = variant_key(ps, cfg)
+    chk.oracle_cases += 1
+    chk.count("oracle:watched-twin:%s" % vk)
+    chk.case(("oracle-twin", json.dumps(cfg, sort_keys=True), n_add))
+    reads = ("r", "p", "P", "s")
+    done = ""
+    for t in range(n_add):
+        a = numpy.array(ps.add_row(), copy=True)
+        done += "a"
+        for rd in reads:
+            if rd == "r":
+                repr(ps)
+            elif rd == "p":
+                str(ps)
+            elif rd == "P":
+                print(ps, file=io.StringIO())
+            else:
+                ps.scrn
+            done += "r" if rd in "rpP" else "s"
+            now = numpy.array(ps.scrn, copy=True)
+            if not bits_equal(now, a):
+                chk.fail("read:%s" % vk, "%s after %d add_row changed the exposed screen (max |Δ| = %.3g)  %s"
+                         % ({"r": "repr()", "p": "str()", "P": "print()", "s": ".scrn"}[rd], t + 1,
+                            float(numpy.max(numpy.abs(now - a))) if now.shape == a.shape else float("nan"),
+                            json.dumps(cfg, sort_keys=True)), {"cfg": cfg, "ops": done, "kind": "read"})
+                return
+        b = numpy.array(tw.add_row(), copy=True)
+        if not bits_equal(numpy.array(ps.scrn, copy=True), b) or not bits_equal(numpy.asarray(ps._scrn), numpy.asarray(tw._scrn)) \
+                or g.bit_generator.state != gt.bit_generator.state:
+            chk.fail("read-twin:%s" % vk, "after %d add_row the screen that was printed / read after every step differs from its twin "
+                     "(same configuration and seed) that was never read (max |Δ| of the exposed screens = %.3g, generator "
+                     "states equal: %s)  %s" % (t + 1, float(numpy.max(numpy.abs(numpy.asarray(ps.scrn) - b))),
+                                               g.bit_generator.state == gt.bit_generator.state, json.dumps(cfg, sort_keys=True)),
+                     {"cfg": cfg, "ops": done, "kind": "read-twin"})
+            return
+
+
+def ops_many_adds(rng, n_add, p_read=0.15):
+    out = ""
+    for _ in range(n_add):
+        out += "a"
+        if rng.random() < p_read:
+            out += rng.choice("srp")
+    return out
+
+
+def view_semantics(chk, cfg):
+    """RECORDED, not asserted: .scrn / add_row() hand out VIEWS of the working array (the model returns values).  A caller who
+    writes into the returned array changes the screen — that is the caller's write, not a read, so the property is silent about
+    it; the other direction (a later add_row must not rewrite an array handed out earlier) is asserted in oracle_history."""
+    try:
+        ps, g = construct(cfg)
+    except Exception:
+        return None
+    ps.add_row()
+    out = ps.scrn
+    shares = bool(numpy.shares_memory(out, ps._scrn))
+    writable = bool(out.flags.writeable)
+    return {"cfg": {k: cfg[k] for k in ("variant", "req")}, ".scrn shares memory with _scrn": shares, "writeable": writable}
+
+
+def exposed_screen_measurement(cfg, lags=(1, 2, 4, 8, 15)):
+    """The stability clause is proved / checked for the recursion STATE (the first n_columns rows).  The
+    exposed N×N screen contains older rows too; its stationary covariance is that of the SAME recursion on the full working
+    array (N rows; rows below the stencil are only shifted).  Here: discrete Lyapunov solution for the full array vs the
+    theoretical covariance — overall deviation and the structure function D(lag) = E[(φ(r,c) − φ(r+lag,c))²] at a few ROW
+    lags (averaged over the columns c, and for the middle column) relative to theory."""
+    from scipy.linalg import solve_discrete_lyapunov
+    ps, g = construct(cfg)
+    n, ln, px = ps.nx_size, ps.stencil_length, cfg["px"]
+    sc = numpy.asarray(ps.stencil_coords)
+    m = ln * n
+    F = numpy.zeros((m, m))
+    F[:n, sc[:, 0] * n + sc[:, 1]] = ps.A_mat
+    F[n:, :m - n] = numpy.eye(m - n)
+    G = numpy.zeros((m, n))
+    G[:n] = ps.B_mat
+    P = solve_discrete_lyapunov(F, G.dot(G.T))
+    ii, jj = numpy.meshgrid(numpy.arange(ln), numpy.arange(n), indexing="ij")
+    pos = numpy.stack([ii.ravel(), jj.ravel()], 1) * px
+    S = vk_covariance(numpy.sqrt(((pos[:, None, :] - pos[None, :, :]) ** 2).sum(-1)), cfg["r0"], cfg["L0"])
+    out = {"config": "PhaseScreenVonKarman(%d, %g, %g, %g, n_columns=%d)" % (cfg["req"], px, cfg["r0"], cfg["L0"], cfg["nc"]),
+           "L0/px": cfg["L0"] / px, "max|P_full - S|/S(0)": float(numpy.max(numpy.abs(P - S)) / S[0, 0]),
+           "max|P_state - S|/S(0) (first n_columns rows)": float(numpy.max(numpy.abs(P - S)[:cfg["nc"] * n, :cfg["nc"] * n]) / S[0, 0]),
+           "row-lag structure function, stationary / theory": {}}
+    for lag in lags:
+        if lag >= ln:
+            continue
+        i = numpy.arange(n)
+        j = lag * n + numpy.arange(n)
+        dp = P[i, i] + P[j, j] - 2 * P[i, j]
+        ds = S[i, i] + S[j, j] - 2 * S[i, j]
+        out["row-lag structure function, stationary / theory"]["lag %d" % lag] = {
+            "column mean": round(float(dp.mean() / ds.mean()), 4), "middle column": round(float(dp[n // 2] / ds[n // 2]), 4)}
+    return out
+
+
+EXPOSED_CFGS = [{"variant": "vk", "req": 16, "px": 1.0, "r0": 0.2, "L0": 100.0, "nc": nc, "seed": 1} for nc in (1, 2, 4)] + \
+               [{"variant": "vk", "req": 16, "px": 0.1, "r0": 0.15, "L0": 25.0, "nc": 2, "seed": 1}]
+# whole-screen deviation max|P_full − S|/S(0) of the four fixed configurations on the repaired tree (2026-09-27); the known finding
+# covers the phenomenon, a larger deviation than recorded is reported under its own key
+EXPOSED_RECORDED = [0.32354, 0.013222, 0.013810, 0.011413]
+HUGE_L0 = [{"variant": "fried", "req": 9, "px": 0.05, "r0": 0.1, "L0": 1e5, "factor": 4, "seed": 3},
+           {"variant": "fried", "req": 20, "px": 0.05, "r0": 0.2, "L0": 1e5, "factor": 2, "seed": 4},
+           {"variant": "vk", "req": 32, "px": 0.05, "r0": 0.1, "L0": 1e4, "nc": 2, "seed": 5},
+           {"variant": "vk", "req": 16, "px": 0.05, "r0": 0.2, "L0": 1e5, "nc": 2, "seed": 6}]
 
 
 # --------------------------------------------------------------------------------------------- correspondence
@@ -636,14 +780,31 @@ def run(chk):
                 "draw sizes and PCG64 state equal to a reference advanced by nx normals per add_row; Float run of the same "
                 "machine with the concrete row functions: |impl-model| <= running bound (1e-12·scale per step, amplified by "
                 "max(1,|A|inf) resp. 2|A|inf+1 for Fried), rounding is ~1e-14·scale.  Oracle: exact (bitwise) shift/shape/read checks on real objects; "
-                "generated row vs A·Z+B·b within 1e-9·(|A||Z|+|B||b|); stability on L0/pixel <= 2000: rho(F)<1 with witness "
-                "k, |FSF'+GG'-S| <= 3e-5·S(0) (float32 covariances leave <= 3e-7), |P*-S| <= 2e-2·S(0) (worst-case "
-                "amplification bound 6e-3, observed <= 5e-6; a 1 % error in B already gives 2e-2).")
+                "generated row vs A·Z+B·b within 1e-9·(|A||Z|+|B||b|); every size 1..33 of both variants, small screens for "
+                "more than 3·stencil_length add_row, watched/unwatched twins (Kolmogorov N = 9, 17, 33 …), outer scales of 1e5..1e7 "
+                "pixels (finite/shape/shift only); stability on L0/pixel <= 2000, for the recursion STATE (first n_columns "
+                "rows): rho(F)<1 with witness k, |FSF'+GG'-S| <= 5e-9·S(0) (observed <= 4.8e-11; float32 covariances would "
+                "leave 3e-7), |P*-S| <= 1e-4·S(0) (observed <= 7.1e-7).  The covariance of the whole exposed screen is "
+                "computed on every run and differs from the model (known finding stationary:vk:exposed-rows-beyond-stencil; a deviation "
+                "beyond the recorded one is a new failure).")
     chk.assumptions = [
         "IEEE finiteness (no overflow in A·Z + B·b) is not proved: theorem entries_inv reduces it to the row kernel; the oracle "
         "checks isfinite along real histories (quick: hundreds of rows; thorough: 10^4-10^5 rows)",
-        "contraction hypothesis ‖F^k‖ < 1 of unique_and_convergent is a per-configuration numerical witness (recorded under "
-        "notes/witnesses), not a theorem",
+        "contraction hypothesis ‖F^k‖ < 1 of unique_and_convergent / vk_stable / vk_stable_concrete / vk_stable_from_cov / "
+        "start_forgotten is a HYPOTHESIS of these theorems; it is supplied per configuration as a numerical witness (recorded "
+        "under notes/witnesses), not proved",
+        "SCOPE of the stability clause: theorems (vk_stable_from_cov, vk_is_stationary) and oracle (`companion`) speak about the "
+        "recursion STATE = the first n_columns rows of the working array (all the recursion ever reads).  For that state the "
+        "theoretical von Kármán covariance is the unique stationary covariance.  The EXPOSED N×N screen also shows rows "
+        "n_columns … N−1, which are old states shifted down; their joint covariance with newer rows at lags ≥ n_columns is "
+        "produced by the truncated (finite-stencil) recursion and is NOT exactly von Kármán on the real code: measured on every "
+        "run (notes: exposed_screen; e.g. PhaseScreenVonKarman(16, 1, 0.2, 100, n_columns=1): max|P−S| = 0.32·S(0), row-lag "
+        "structure function 0.65 … 0.26 of theory at lags 2 … 15; default n_columns=2: within ≈ 3 %; n_columns=4: ≈ 2 %).  This "
+        "is a property of the method of Assemat & Wilson (finite stencil), not a coding slip, and it is not claimed, proved or "
+        "asserted here: 'the statistics converge to the model' is established for the state only",
+        ".scrn and add_row() return VIEWS of the working array (the model returns values): a caller WRITING into a returned array "
+        "alters the screen; the property's operations are add_row and reads, so this is outside it (recorded under notes: "
+        "view_semantics); the converse — add_row never rewrites an array handed out earlier — is asserted",
         "the C04 identities A·Σzz = Σxz, B·Bᵀ = Σxx − A·Σzx and block-stationarity of Σ are hypotheses of vk_is_stationary "
         "(external Cholesky/SVD kernels; Bessel-function covariance); their joint consequence F·S·Fᵀ+G·Gᵀ = S is checked "
         "numerically per configuration against an independently written binary64 von Kármán covariance",
@@ -674,6 +835,33 @@ def run(chk):
         ops = gen_ops(rng, rng.randint(5, 60 if quick else 400), p_add=rng.choice([0.3, 0.6, 0.9]))
         if oracle_history(chk, cfg, ops):
             done += 1
+    # small screens for more than 3·stencil_length add_row, checked after every step (buffer wrap-around, periodic slips)
+    small = [{"variant": "vk", "req": n, "nc": nc} for n in (1, 2, 3, 4, 5, 8) for nc in (1, 2)] + \
+            [{"variant": "fried", "req": n, "factor": f} for n in (1, 2, 3, 4, 5) for f in (1, 2, 4)]
+    if not quick:
+        small += [{"variant": "vk", "req": n, "nc": nc} for n in (6, 7, 9, 16, 17) for nc in (1, 2, 3, 4)] + \
+                 [{"variant": "fried", "req": n, "factor": f} for n in (6, 8, 9, 10) for f in (1, 2, 3, 4, 5)]
+    for base in small:
+        cfg = gen_cfg(rng, maxn, variant=base["variant"], req=base["req"])
+        cfg.update(base)
+        for _try in range(5):
+            try:
+                ln = construct(cfg)[0].stencil_length
+                break
+            except Exception:
+                cfg = dict(gen_cfg(rng, maxn, variant=base["variant"], req=base["req"]), **base)
+        else:
+            continue
+        oracle_history(chk, cfg, ops_many_adds(rng, 3 * ln + 5))
+        chk.count("oracle:hist:more-than-3-stencil-lengths")
+    # reading / printing after add_row vs a twin that is never read (Kolmogorov: requested N = internal 2^n+1 and not)
+    for n in (9, 17, 33, 5, 3, 12, 20) if quick else (2, 3, 5, 9, 17, 33, 4, 7, 12, 20, 31):
+        for v in VARIANTS:
+            oracle_watched_twin(chk, gen_cfg(rng, maxn, variant=v, req=n), 4 if quick else 12)
+    # outer scales of 1e5 … 1e7 pixels: construction succeeds (cond(Szz) up to 1e15); only finiteness / shape / shift / reads
+    for cfg in HUGE_L0 + [gen_cfg(rng, 20, extreme="huge") for _ in range(8 if quick else 100)]:
+        if oracle_history(chk, cfg, gen_ops(rng, 40 if quick else 200, p_add=0.8)):
+            chk.count("oracle:hist:L0/pixel>=1e5")
     # stability of the von Kármán recursion
     for _ in range(120 if quick else 2500):
         oracle_stability(chk, gen_cfg(rng, maxn, variant="vk"))
@@ -688,7 +876,35 @@ def run(chk):
     if not quick:
         oracle_long(chk, gen_cfg(rng, 9, variant="vk"), 400000)
         oracle_long(chk, gen_cfg(rng, 9, variant="fried"), 400000)
-    chk.notes.append({"contraction_witnesses": chk.witnesses, "unstable_configurations": chk.unstable})
+    exposed = []
+    for i, cfg in enumerate(EXPOSED_CFGS + ([] if quick else [gen_cfg(rng, 16, variant="vk") for _ in range(6)])):
+        try:
+            m = exposed_screen_measurement(cfg)
+        except Exception as ex:       # the measurement itself failed: nothing is concluded from it
+            exposed.append({"config": json.dumps(cfg, sort_keys=True), "error": "%s: %s" % (type(ex).__name__, str(ex)[:100])})
+            continue
+        exposed.append(m)
+        chk.count("oracle:exposed-screen")
+        dev, dev_state = m["max|P_full - S|/S(0)"], m["max|P_state - S|/S(0) (first n_columns rows)"]
+        # "from any starting screen the statistics converge to the model": read at full strength this is about the whole
+        # exposed screen, and there it is FALSE of the algorithm (`exposed_model_cov_not_fixed`, `exposed_stationary_limit`):
+        # rows older than the stencil keep the covariance the Markov recursion gives them, not the von Kármán one.  Recorded as
+        # a known finding; a deviation of the STATE block has its own key (stationary:vk:*) and is never covered by it, and a
+        # deviation of the whole array beyond what was recorded for the four fixed configurations is a different failure.
+        if dev_state <= DEV_TOL and dev > 1e-6:
+            chk.fail("stationary:vk:exposed-rows-beyond-stencil",
+                     "%s: the stationary covariance of the whole exposed screen differs from the von Kármán covariance by "
+                     "%.3g·S(0) (the recursion state, the first n_columns rows, agrees to %.1e·S(0))" % (m["config"], dev, dev_state),
+                     {"cfg": cfg, "kind": "exposed", "measurement": m})
+        if i < len(EXPOSED_RECORDED) and dev > 1.05 * EXPOSED_RECORDED[i]:
+            chk.fail("stationary:vk:exposed-rows:worse-than-recorded",
+                     "%s: whole-screen deviation %.4g·S(0), recorded for the unchanged algorithm: %.4g·S(0)"
+                     % (m["config"], dev, EXPOSED_RECORDED[i]), {"cfg": cfg, "kind": "exposed", "measurement": m})
+    views = [view_semantics(chk, gen_cfg(rng, 9, variant=v, req=n)) for v in VARIANTS for n in (5, 7)]
+    chk.notes.append({"exposed_screen (known finding stationary:vk:exposed-rows-beyond-stencil): stationary covariance of the WHOLE working array of the real "
+                      "recursion vs the theoretical von Kármán covariance": exposed,
+                      "view_semantics (recorded, not asserted)": views,
+                      "contraction_witnesses": chk.witnesses, "unstable_configurations": chk.unstable})
 
 
 def replay(rec):
@@ -700,6 +916,10 @@ def replay(rec):
         return 1
     chk = common.Check("C05", "quick", int(rec.get("seed", 0)))
     chk.witnesses, chk.unstable = [], []
+    if rp.get("kind") == "exposed":
+        m = exposed_screen_measurement(rp["cfg"])
+        print("  " + json.dumps(m)[:1500])
+        return 1 if m["max|P_full - S|/S(0)"] > 1e-6 else 0
     if rp.get("kind") in ("stability",):
         oracle_stability(chk, rp["cfg"], quantitative=rp["cfg"]["L0"] / rp["cfg"]["px"] <= RATIO_MAX, steps=3000)
     elif rp.get("kind") in ("finite", "bounded") and len(rp.get("ops", "")) > 300:
